@@ -12,9 +12,10 @@
 (* run because Combine only follows the completed collective.              *)
 (* TLC replays the events against the operators of ParallelStatsOps with   *)
 (* exact rationals recomputed from the logged (v, w); logged floats are    *)
-(* scaled integers compared with Close().  Expected results are those of   *)
-(* the correct (value) NaN test; at the first C of a run the processed     *)
-(* sample indices must be exactly 0..n-1, each once.                       *)
+(* scaled integers compared with Close().  The combined result of every    *)
+(* rank must be the weighted mean / two-pass variance of all samples; at   *)
+(* the C events the processed sample indices must be exactly 0..n-1, each  *)
+(* once.                                                                   *)
 (* Runs are independent: a rejected event prints BAD and skips its tid.    *)
 (***************************************************************************)
 EXTENDS ParallelStatsOps, Json, IOUtils, TLCExt
@@ -25,6 +26,7 @@ RanksOf(e) == 0..(e.nr - 1)
 Fresh(e) == [tid |-> e.tid, nr |-> e.nr, n |-> e.n,
              acc |-> [r \in RanksOf(e) |-> Acc0],
              seen |-> <<>>,
+             smp |-> <<>>,
              nproc |-> [r \in RanksOf(e) |-> 0],
              lastseq |-> [r \in RanksOf(e) |-> -1],
              sent |-> [r \in RanksOf(e) |-> <<>>],
@@ -35,10 +37,9 @@ KindOK(kind, m, S, tol, x) ==      \* logged (kind, scaled m) against the exact 
     /\ IsNum(x) => Close(m, S, x[2], tol)
 
 NewAcc(s, e) == UpdAcc(s.acc[e.rank], e.v, e.w)
-Gathered(s)  == [q \in 1..s.nr |-> s.sent[q - 1][1]]
-Expected(s)  == ParVar("value", Gathered(s))
-\* the single-process value of the same samples in index order is the two-pass statistic (AccIsTwoPass),
-\* so comparing with Expected is comparing with the serial run.
+\* the property itself: weighted mean and two-pass weighted variance of ALL logged samples (moment form,
+\* DirectVarLemma), which is also the single-process result (AccIsTwoPass, ScheduleIndependent)
+Expected(s)  == [mean |-> Num(WMean(s.smp)), var |-> Num(DirectVar(s.smp))]
 
 \* each check is named: the first failing one is reported
 ChkRank(s, e) == e.rank \in 0..(s.nr - 1) /\ e.nr = s.nr /\ e.n = s.n
@@ -91,6 +92,7 @@ Why(s, e) ==
 Apply(s, e) ==
     LET s1 == [s EXCEPT !.lastseq[e.rank] = e.seq] IN
     IF e.ev = "U" THEN [s1 EXCEPT !.acc[e.rank] = NewAcc(s, e), !.seen = Append(s.seen, e.i),
+                                  !.smp = Append(s.smp, [v |-> e.v, w |-> e.w]),
                                   !.nproc[e.rank] = s.nproc[e.rank] + 1]
     ELSE IF e.ev = "G" THEN [s1 EXCEPT !.sent[e.rank] = <<SerC(Contribution(s.acc[e.rank]))>>]
     ELSE [s1 EXCEPT !.comb = s.comb \cup {e.rank}]
